@@ -23,7 +23,8 @@ From CGV Require Import Base.PyBase Base.PyVal Base.NxGraph Write.WriteImpl Writ
      Write.WriteProofs Write.WriteRound Write.WriteDfsSmall Write.PathRound.
 From CGV Require Import Dialect.DialectImpl Reader.ReaderImpl Reader.Grammar.
 From CGV Require Import Write.TreeDefs Write.TreeWrite Write.TreeTables Write.DfsProofs Write.WfFacts Write.ConnFacts Write.TreeRead
-     Write.TreeRound Write.RingDefs Write.RingWrite Write.RingTables Write.RingMarkers Write.RingClose.
+     Write.TreeRound Write.RingDefs Write.RingWrite Write.RingTables Write.RingMarkers Write.RingClose Write.RingRead Write.RingRound.
+From CGV Require Import Reader.Lin.
 Import ListNotations.
 Open Scope Z_scope.
 
@@ -179,7 +180,27 @@ Theorem C07_no_open_ring : forall sf ntext stext rsymt tr T p isb d,
   snd (fst (wtextR sf ntext stext (rlist_of tr) rsymt p isb d [] T)) = [].
 Proof. exact no_open_ring. Qed.
 
+(** PARTIAL (rings): for every plain graph with ring edges, outside the `%nn`-then-digit pattern, the reader
+    model reads the written text as the token machine's denotation of the writer's own item list (DFS tree + ring
+    items in the order of writing).  Missing for the full statement on arbitrary ring edges: that this denotation
+    is isomorphic to the input (proved for trees: [C07_tree_roundtrip]; bounded for rings: [C07_small]). *)
+Theorem C07_rings_reader_sim_partial : forall fo g tr start,
+  plain_graph g = true -> min_node g = Ok start ->
+  (forall bond, In bond tr -> In (snd bond) (neighbors g (fst bond))) ->
+  (forall k, In k (node_keys g) -> name_ok fo (name_of g k) = true) ->
+  exists T, rkey T = start /\ dfs_edges g start = Ok (redges T) /\ NoDup (rkeys T) /\
+    let items := fst (tlinsR (name_of g) (esym_of g) (rlist_of tr) (rsym_of g tr) false 0 None [] T) in
+    (rings_plain items = true ->
+     exists s, write_cgsmiles_graph g tr = Ok s /\ read_cgsmiles fo s = denote_lin fo items).
+Proof. exact graph_text_is_read_partial. Qed.
+Example C07_rings_nonvacuous :
+  plain_graph ex_rings = true /\ ring_contract ex_rings (dfs_tree ex_rings) ex_rings_tr = true
+  /\ write_cgsmiles_graph ex_rings ex_rings_tr = Ok (S "{[#A]#1[#B]$2=[#C]11[#D][#E]2.[#F]1}")
+  /\ WriteRound.roundtrip_code ex_rings ex_rings_tr = 0%nat.
+Proof. exact (conj ring_example_plain (conj ring_example_contract (conj ring_example_text ring_example_roundtrip))). Qed.
+
 Print Assumptions C07_tree_roundtrip.
+Print Assumptions C07_rings_reader_sim_partial.
 Print Assumptions C07_write_graph_is_print.
 Print Assumptions C07_dfs_spanning.
 Print Assumptions C07_get_ring_marker_spec.
